@@ -115,6 +115,8 @@ def rules(ctx):
         Rule("R07.d", "operator/type combinations the checker accepts have a code-generator arm (shared with C07)", 80, _reuse("c07", "r07d")),
         Rule("R07.h", "every cast the checker accepts is one the code generator can build (shared with C07)", 100, _reuse("c07", "r07h")),
         Rule("R07.i", "== / != on aggregates: every component the comparison recurses into has a code-generator arm (shared with C07)", 60, _reuse("c07", "r07i")),
+        Rule("R18.a", "type ids: each kind's own discriminant and row index (core.println prints through `any` and these tables; shared with C18)", 60, _reuse("c18", "r18a")),
+        Rule("R18.h", "the type id written into an `any` is the id of the value's declared type (shared with C18)", 2, _reuse("c18", "r18h")),
         Rule("R11.c", "switch dispatch wiring and tag uses (shared with C11)", 9, _reuse("c11", "r11c")),
         Rule("R11.d", "variants of one enum get pairwise distinct discriminants (shared with C11)", 1, _reuse("c11", "r11d")),
         Rule("R03.a", "every jump to a scope target passes the defer unwinder (shared with C03)", 2, _reuse("c03", "r03a")),
